@@ -303,7 +303,8 @@ class Engine(CoreMixin, ExprMixin, CallMixin, StmtMixin, BuiltinMixin):
                     unless = contract.ghost.get("result_fresh_unless")
                     if unless:
                         fr = Or(sp.compile_bool(unless), fr)
-                    self.obl("post@return", node, st, fr, detail="the result is a new object (ghost result_fresh"
+                    # (kind "frame": like a write to a non-fresh object, a literally-false goal is a static violation unless the path is dead)
+                    self.obl("frame", node, st, fr, detail="the result is a new object (ghost result_fresh"
                              + (f", unless {unless}" if unless else "") + ")")
                 if "warns" in contract.ghost:
                     want = SpecEval(self, env, glob=fi.glob).compile_bool(contract.ghost["warns"])
